@@ -330,8 +330,11 @@ func evalC03(c *Ctx, cs *Case) {
 		if !RowsEqual(rec2.Rows, cur.rows) {
 			viol("WalkProgrammably(alias)", "alias.differs", "walk", map[string]any{})
 		}
+		// the caller keeps its options in ONE slice - branch strings, then an encode option - and passes
+		// the branch strings only (all[:2]...) to the walks; the full slice is used afterwards
+		all := append(BranchOptions(3), gtree.WithEncodeJSON(), nil)[:3]
 		_ = Guard(func() error {
-			for wn, err := range gtree.WalkIterFromRoot(g, BranchOptions(3)...) {
+			for wn, err := range gtree.WalkIterFromRoot(g, all[:2]...) {
 				if err != nil {
 					return err
 				}
@@ -341,7 +344,7 @@ func evalC03(c *Ctx, cs *Case) {
 		})
 		var aliasIter []model.Row
 		_ = Guard(func() error {
-			for wn, err := range gtree.WalkIterProgrammably(g, BranchOptions(3)...) {
+			for wn, err := range gtree.WalkIterProgrammably(g, all[:2]...) {
 				if err != nil {
 					return err
 				}
@@ -349,6 +352,16 @@ func evalC03(c *Ctx, cs *Case) {
 			}
 			return nil
 		})
+		_ = Guard(func() error { return gtree.WalkFromRoot(g, func(*gtree.WalkerNode) error { return nil }, all[:2]...) })
+		{
+			wj := mon.NewRecWriter()
+			oj := Guard(func() error { return gtree.OutputFromRoot(wj, g, all...) })
+			c.Count("calls_with_the_full_option_slice_after_prefix_calls", 1)
+			if oj.Panic != nil || oj.Err != nil || string(wj.Bytes()) != cur.enc[0] {
+				viol("OutputFromRoot[json]", "options.callers-slice-written", "", map[string]any{"order": order, "with_the_full_slice": trunc(string(wj.Bytes()), 300), "with_the_json_option_alone": trunc(cur.enc[0], 300),
+					"note": "branch strings and WithEncodeJSON sit in one slice; walks were given its first two elements; the full slice no longer gives the JSON output"})
+			}
+		}
 		// leaving the iterator after k+1 visits yields the first k+1 rows of the callback walk
 		for _, k := range []int{0, len(cur.rows) / 2} {
 			if k >= len(cur.rows)-1 {
@@ -574,6 +587,10 @@ func c03Invalid(c *Ctx, cs *Case, root *model.Node, fkey string, viol func(entry
 	for _, n := range nonRoots {
 		bads = append(bads, bad{n, gtree.ErrNotRoot, "non-root"})
 	}
+	// nodes that did not come from NewRoot: the zero value, alone and with children added to it
+	zeroWithKids := new(gtree.Node)
+	zeroWithKids.Add("kid").Add("grandkid")
+	bads = append(bads, bad{new(gtree.Node), gtree.ErrNotRoot, "zero-value node"}, bad{zeroWithKids, gtree.ErrNotRoot, "zero-value node with children"})
 	j, err := mon.NewJail(c.TmpDir, true)
 	if err != nil {
 		return
